@@ -177,6 +177,19 @@ func run(t *testing.T, tape *simrt.Tape) *hx.Outcome {
 	spec := common.GenTar(d, tape.Seed, common.GenOpts{ChunkSize: cs, MaxEntries: 12, OddNames: d(3) == 0, BigFiles: d(3) == 0, Dups: d(3) == 0})
 	spec.OwnerNames = c(2) == 0
 	tarB := spec.Bytes()
+	// what follows the end-of-archive marker: nothing (Go), padding to a 10240-byte record (GNU tar's
+	// default) or a stray block; readers ignore it, lossless mode has to give it back
+	// (own stream, 0 = nothing: older replay tapes keep their meaning)
+	switch tape.Draw("pad", 4) {
+	case 1, 3:
+		if r := len(tarB) % 10240; r != 0 {
+			tarB = append(tarB, make([]byte, 10240-r)...)
+		}
+		out.Counters["record_padding"]++
+	case 2:
+		tarB = append(tarB, make([]byte, 512)...)
+		out.Counters["record_padding"]++
+	}
 	model, err := common.Model(tarB)
 	if err != nil {
 		out.InfraErr = "model: " + err.Error()
@@ -556,7 +569,7 @@ func run(t *testing.T, tape *simrt.Tape) *hx.Outcome {
 func TestC03(t *testing.T) {
 	hx.Main(t, hx.Prop{
 		ID:               "C03",
-		Rule:             "each run draws a tar (all entry types, names with ./ ../ / prefixes, odd names, implied parents, hard-link chains, duplicate names, sizes around chunk boundaries, many-chunk files), its form (plain, gzip, zstd, already eStargz), the API (Build x3, Writer.AppendTar, Writer.AppendTarLossLess), the scheme (gzip, zstd:chunked, external TOC), chunk size 8/17/50/64, min-chunk-size, compression level, prioritized files and GOMAXPROCS 1-6 (the builder's degree of parallelism); the builder's worker goroutines run under the seeded scheduler with scheduling points at every lock, errgroup spawn/wait, temp-file call and some source reads; half of the runs inject temp-file failures (1/25), source read failures (1/20) and a cancellation of the build context at a drawn point. A build that returns an error is accepted only when a fault was injected. Every blob that is returned is checked: decompresses as a whole with compress/gzip (multistream) or the zstd frame decoder; SHA-256 of that stream = reported DiffID; archive/tar of it describes the same tree as the input (types, modes, owners, mtimes, xattrs, device numbers, link targets, contents, last duplicate wins) plus exactly one landmark (Build) and, for gzip blobs, the TOC entry last; reported TOC digest = SHA-256 of the TOC JSON (embedded entry, external TOC blob, or found through the footer); estargz.Open by footer and TOC serves every file's bytes; every chunk entry carries the SHA-256 of its bytes and (gzip) a gzip member starts at its offset and holds the chunk at innerOffset; lossless mode returns the input tar byte for byte. non-trivial = a blob was returned and checked; distinct = schedule hash x configuration",
+		Rule:             "each run draws a tar (all entry types, names with ./ ../ / prefixes, odd names, implied parents, hard-link chains, duplicate names, sizes around chunk boundaries, many-chunk files, nothing / a 512-byte block / padding to a 10240-byte record after the end-of-archive marker), its form (plain, gzip, zstd, already eStargz), the API (Build x3, Writer.AppendTar, Writer.AppendTarLossLess), the scheme (gzip, zstd:chunked, external TOC), chunk size 8/17/50/64, min-chunk-size, compression level, prioritized files and GOMAXPROCS 1-6 (the builder's degree of parallelism); the builder's worker goroutines run under the seeded scheduler with scheduling points at every lock, errgroup spawn/wait, temp-file call and some source reads; half of the runs inject temp-file failures (1/25), source read failures (1/20) and a cancellation of the build context at a drawn point. A build that returns an error is accepted only when a fault was injected. Every blob that is returned is checked: decompresses as a whole with compress/gzip (multistream) or the zstd frame decoder; SHA-256 of that stream = reported DiffID; archive/tar of it describes the same tree as the input (types, modes, owners, mtimes, xattrs, device numbers, link targets, contents, last duplicate wins) plus exactly one landmark (Build) and, for gzip blobs, the TOC entry last; reported TOC digest = SHA-256 of the TOC JSON (embedded entry, external TOC blob, or found through the footer); estargz.Open by footer and TOC serves every file's bytes; every chunk entry carries the SHA-256 of its bytes and (gzip) a gzip member starts at its offset and holds the chunk at innerOffset; lossless mode returns the input tar byte for byte. non-trivial = a blob was returned and checked; distinct = schedule hash x configuration",
 		Run:              run,
 		PanicIsViolation: true,
 		HangIsViolation:  true,
